@@ -231,9 +231,8 @@ def runOp (w : World) (body : List String) (masks : List Mask) (ev : Events) : W
     | "setcfg" :: rest =>
       -- `set_config`: the new configuration, `assert_valid`, then the codec's two sizes
       let (_, cfg, _) := parseCfg rest
-      if configValid cfg.maxw cfg.wbuf then
-        ({ w0 with c := { w0.c with cfg := cfg, codec := { w0.c.codec with maxOut := cfg.maxw, writeLen := cfg.wbuf } } }, "ok unit")
-      else ({ w0 with c := { w0.c with cfg := cfg } }, "panic")
+      let (w, r) := w0.setConfig fun _ => cfg
+      (w, showResUnit r)
     | "can" :: _ => (w0, "ok unit")
     | _ => (w0, "bad-op")
   let calls := w1.t.log.reverse.map showCall
